@@ -569,7 +569,7 @@ Proof. destruct a, b; cbn; intros; subst; reflexivity. Qed.
 Lemma bd_set_in_set_in f h c : rq_set_in f (rq_set_in h c) = rq_set_in (fun k => f (h k)) c.
 Proof. destruct c; reflexivity. Qed.
 Lemma bd_set_in_ext f h c : f (c_in c) = h (c_in c) -> rq_set_in f c = rq_set_in h c.
-Proof. destruct c; cbn. intros H. unfold rq_set_in. cbn. rewrite H. reflexivity. Qed.
+Proof. intros H. destruct c; unfold rq_set_in, set; cbn in *. rewrite H. reflexivity. Qed.
 Lemma bd_rq_copied_copied k nb b c : bd_rq_copied 1 (Some b) (bd_rq_copied k nb c) = bd_rq_copied (S k) (Some b) c.
 Proof.
   unfold bd_rq_copied. rewrite bd_set_in_set_in. apply bd_set_in_ext. apply bd_cursor_eta; cbn; try reflexivity. lia.
@@ -616,7 +616,7 @@ Lemma bd_rq_rest_copied k nb c tl pre :
   bd_rq_rest c = pre ++ tl -> length pre = k -> bd_rq_rest (bd_rq_copied k nb c) = tl.
 Proof.
   intros H L. unfold bd_rq_rest in *. cbn. destruct (k_data (c_in c)) as [d|].
-  - rewrite Nat.add_comm, <- bd_skipn_skipn, H, skipn_app, <- L, Nat.sub_diag, skipn_all. reflexivity.
+  - rewrite <- bd_skipn_skipn, H, skipn_app, <- L, Nat.sub_diag, skipn_all. reflexivity.
   - destruct pre; [cbn in *; subst; reflexivity|discriminate].
 Qed.
 Lemma bd_rq_rest_taken k nb c tl pre :
